@@ -1,0 +1,23 @@
+//go:build !verif
+
+// Package verifhook provides observation and scheduling hooks that are compiled in only
+// with the "verif" build tag. Without the tag every function is an empty, inlinable no-op.
+package verifhook
+
+// Enabled reports whether the hooks are compiled in.
+const Enabled = false
+
+// Yield marks a scheduling point.
+func Yield(point string) {}
+
+// Event reports an observation.
+func Event(kind string, args ...any) {}
+
+// RegisterPlan associates a plan selector with its key.
+func RegisterPlan(selector any, key any) {}
+
+// ForcedPlan lets a harness override the choice among candidates.
+func ForcedPlan[V any](selector any, candidates map[string]V) (V, bool) {
+	var zero V
+	return zero, false
+}
